@@ -42,6 +42,13 @@ def comment_scan(ctx, rule):
             r = absint.reach(b, start, {A: a, B: o}, roles)
             hit = bool(sl) and sl[0][0] in r
             ctx.check(hit == bool(a or o), rule, fn, "dominance:new=%d,old=%d" % (a, o), "the slice is reached exactly when the line starts with one of the two prefixes")
+            if (a or o) and sl:
+                # ... and it cannot be missed: no other test sends a line with a prefix back to the loop head or out
+                r2 = absint.reach(b, start, {A: a, B: o}, roles, stop=[sl[0][0]])
+                heads = [hb for hb, t in q.calls_to(b, "Iterator::next")]
+                esc = sorted(x for x in r2 if x in heads or x in b.return_blocks())
+                ctx.check(bool(heads) and not esc, rule, fn, "no-skip:new=%d,old=%d" % (a, o),
+                          "a line that starts with a prefix always reaches the URL slice (no further condition such as a minimum length skips it)", detail="escapes via bb%s" % esc)
     urls = [sh for l in sorted(b.var_names) for sh, _, _ in q.def_shapes(b, l, roles) if sh.startswith("ToOwned::to_owned(") or sh.startswith("str::trim(")]
     ctx.check(len(urls) == 1 and q.wild("ToOwned::to_owned(str::trim(try(converts::from_utf8(String::as_bytes(*)[RangeFrom{start:21}]))))", urls[0]), rule, fn, "trim", "the URL is trimmed", detail=str(urls))
     lits = [(bi, s["rv"]["variant"]) for bi, si, s, it in b.locations() if not it and s["k"] == "assign" and s["rv"]["k"] == "agg" and s["rv"].get("adt") == "detector::SourceMapRef"]
@@ -182,6 +189,15 @@ def detection(ctx, rule):
     a = str_array_const(mn[0]) if mn else []
     bb = str_array_const(rw[0]) if rw else []
     ctx.check(bool(a) and set(a) <= set(bb), rule, "jsontypes::MinimalRawSourceMap", "keys-subset", "the detection struct's keys are a subset of the map's keys (same renames)", detail=str(a))
+    # each probe field accepts every value the writer can produce for that key: it ignores the
+    # value's type altogether, or it has the very type the writer serialises
+    mf = {f["name"]: f["ty"] for f in ctx.facts.adts.get("jsontypes::MinimalRawSourceMap", {"variants": [{"fields": []}]})["variants"][0]["fields"]}
+    rf = {f["name"]: f["ty"] for f in ctx.facts.adts.get("jsontypes::RawSourceMap", {"variants": [{"fields": []}]})["variants"][0]["fields"]}
+    ctx.check(sorted(mf) == sorted(fields), rule, "jsontypes::MinimalRawSourceMap", "probe-fields", "the detection struct has the eight probe fields", detail=str(sorted(mf)))
+    for name, ty in sorted(mf.items()):
+        anyty = ty in ("core::option::Option<serde_core::de::ignored_any::IgnoredAny>", "core::option::Option<serde::de::IgnoredAny>", "core::option::Option<serde_json::value::Value>", "core::option::Option<serde_json::Value>")
+        ctx.check(anyty or ty == rf.get(name), rule, "jsontypes::MinimalRawSourceMap", "probe-type:%s" % name,
+                  "the probe accepts any value the writer emits for %s (ignores the value, or has the writer's own type)" % name, detail="%s vs writer %s" % (ty, rf.get(name)))
 
 
 # ------------------------------------------------------------------------------------------------
